@@ -391,6 +391,10 @@ class G:
                     # signed test: items of both signs inside the range of the test
                     lo_, hi_ = -(1 << (tw - 1)), (1 << (tw - 1)) - 1
                     keys = sorted({r.randint(lo_, hi_) if r.random() < 0.7 else r.choice([lo_, -1, 0, hi_]) for _ in range(r.randint(1, 4))})
+                    if r.random() < 0.3:
+                        # items beyond the signed range of the test (e.g. range(2**n) on a signed selector): legal, never matched -
+                        # in the Verilog they must not alias a negative value of the test
+                        keys = sorted(set(keys) | {r.randint(hi_ + 1, (1 << tw) - 1) for _ in range(r.randint(1, 2))})
                 else:
                     keys = sorted({r.getrandbits(tw) if r.random() < 0.7 else r.choice([0, 1, (1 << tw) - 1]) for _ in range(r.randint(1, 4))})
                 r.shuffle(keys)
